@@ -145,6 +145,19 @@ class DryRunResult(Exception):
     pass
 
 
+def sort_dict_keys(value: Any) -> Any:
+    """
+    Returns a copy of a (nested) dict with its keys in sorted order.
+    """
+    if isinstance(value, dict):
+        try:
+            keys = sorted(value)
+        except TypeError:
+            keys = list(value)
+        return {key: sort_dict_keys(value[key]) for key in keys}
+    return value
+
+
 def get_current_scheduler(required=True) -> Optional["Scheduler"]:
     """
     Returns the currently running Scheduler for this thread.
@@ -1700,7 +1713,8 @@ class Scheduler:
         job.eval_hash, job.args_hash = hash_args_eval(self.type_registry, job.task, args, kwargs)
         context = job.get_context()
         if context:
-            job.context_hash = self.type_registry.get_hash(context)
+            # Equal contexts must hash equally, whatever order their keys were merged in.
+            job.context_hash = self.type_registry.get_hash(sort_dict_keys(context))
 
         # Replace a placeholder JobInfo with a populated one.
         def include_job_info(arg_pair):
